@@ -650,8 +650,8 @@ theorem filterR4_first {g : Cfg} {db : List Rec} {a : Rec} (ok : FR4OK g db a) (
   obtain ⟨e1, hph, hlen, hwire, hlog, hm, hb, hstop, hev, hsc⟩ := hc
   have hrole : g.p.request.role = 3 := ok.role
   have hstep := C07.handler_step c _ _ hph
-  obtain ⟨f, hf⟩ : ∃ f, handlerFuel c.env (AReq.new (Str.Parser.fromParser g.cap g.p.request e1 g.mc)) = f + 1 :=
-    ⟨handlerFuel c.env (AReq.new (Str.Parser.fromParser g.cap g.p.request e1 g.mc)) - 1, by have := handlerFuel_ge c.env (AReq.new (Str.Parser.fromParser g.cap g.p.request e1 g.mc)); omega⟩
+  obtain ⟨f, hf⟩ : ∃ f, (handlerFuel c.env (AReq.new (Str.Parser.fromParser g.cap g.p.request e1 g.mc)) + scriptOf c) = f + 1 :=
+    ⟨(handlerFuel c.env (AReq.new (Str.Parser.fromParser g.cap g.p.request e1 g.mc)) + scriptOf c) - 1, by have := handlerFuel_ge c.env (AReq.new (Str.Parser.fromParser g.cap g.p.request e1 g.mc)); omega⟩
   rw [ok.hs, hf, hp_ret] at hstep
   have hts2 : TStep c.env.tr (c.env.tr.ev s!"HE(ok:{showStatus g.st})") := TStep.ev _ (by simp [isHS, toString_str])
   have hstep' : stepConn c = .next ⟨.closing (AReq.new (Str.Parser.fromParser g.cap g.p.request e1 g.mc)) .start g.st 0,
